@@ -18,7 +18,8 @@ ASAN = 'small_sse_cache_seq_asan'
 ALG_REASONS = {'result', 'frame', 'stray', 'crash', 'unexpected_die', 'die_touched', 'unknown_op'}
 
 
-BOUND_OPS = {'ple', 'pluq', '_ple', '_pluq', '_ple_naive', '_pluq_naive', '_ple_russian', '_pluq_russian', 'echelonize_m4ri'}
+BOUND_OPS = {'ple', 'pluq', '_ple', '_pluq', '_ple_naive', '_pluq_naive', '_ple_russian', '_pluq_russian', 'echelonize_m4ri', 'echelonize_pluq', 'find_pivot',
+             'solve_left', '_solve_left', 'kernel_left_pluq'}
 
 
 def mcjob(module, cfg=None, workers=8, timeout=900, xmx='8g', witness=False):
@@ -678,7 +679,9 @@ def run_property(prop, tier, seed):
                     if ev['op'] in BOUND_OPS and ev.get('o') and not ev.get('die'):
                         o0 = ev['o'][0]
                         if o0['m'] * o0['n'] <= 10000 or (job.cfg.startswith('tiny') and o0['m'] * o0['n'] <= 350 * 270):
-                            if ev['op'] != 'echelonize_m4ri' or ev['p'].get('k', 0) >= 1:
+                            skip = (ev['op'] == 'echelonize_m4ri' and ev['p'].get('k', 0) < 1) or (ev['op'] == 'echelonize_pluq' and ev['p'].get('full') == 1) \
+                                or (ev['op'] in ('solve_left', '_solve_left') and ev.get('ret') != 0)
+                            if not skip:
                                 nbound[ev['op']] = nbound.get(ev['op'], 0) + 1
                     for fn in ev.get('fn', []):
                         reached[fn] = reached.get(fn, 0) + 1
@@ -755,7 +758,8 @@ def run_property(prop, tier, seed):
         'model_drift': drift,
         'model_conformance': {'events_compared_bit_for_bit_with_the_implementation_shaped_model': nbound,
                               'models': 'alg/PLERussian (k explicit or automatic), alg/PLERec (naive PLE/PLUQ; block recursion with the PLERussian base case and the '
-                                        'TRSM recursion), alg/Echelon (explicit k); a mismatch is reported as model drift, never as a violation'},
+                                        'TRSM recursion), alg/Echelon (explicit k; pivot search), alg/Solve (solve_left, kernel, echelonize_pluq without full reduction on '
+                                        'the PLERec factorisation); a mismatch is reported as model drift, never as a violation'},
         'internal_routines_reached': reached,
     }
     res['coverage'].update(extra_cov)
